@@ -502,7 +502,10 @@ func recordCallers(prog *ssa.Program, pkgs []*packages.Package, out *Out) {
 // functions (GetStats / GetMetrics) and the same-package functions they call: WHEREVER a value read from g.F
 // (atomic load, plain read, through a local, a conversion or a one-argument helper) is published in a field K of the
 // snapshot type — a key of a composite literal `Stats{K: v}`, an assignment `stats.K = v`, or a
-// `range g.F { snapshot.K[...] = ... }`.
+// `range g.F { snapshot.K[...] = ... }`.  The value is also followed through a FIELD OF AN INTERMEDIATE STRUCT of the package
+// (`counters{min: load(&g.F)}` in one function, `Stats{K: c.min}` in another): field-sensitive, per struct type; a field
+// that receives anything else than the value of one metrics field anywhere in the scanned functions carries nothing.
+// Parameters / receivers of the scanned callees that are given the metrics variable stand for it.
 func publicNames(p *packages.Package, vars []types.Object, funcs map[types.Object]*ast.FuncDecl) map[string]string {
 	res := map[string]string{}
 	t := newMtr(p, vars, funcs)
@@ -525,6 +528,64 @@ func publicNames(p *packages.Package, vars []types.Object, funcs map[types.Objec
 				}
 			}
 			isSnap := func(ty types.Type) bool { return snap == nil || (ty != nil && types.Identical(deref(ty), snap)) }
+			// a parameter / receiver of a scanned callee that is given the metrics variable (g, &g, or such a parameter) at
+			// every scanned call stands for it
+			aliasBad := map[types.Object]bool{}
+			bindG := func(call *ast.CallExpr, c *ast.FuncDecl) {
+				bind := func(po types.Object, arg ast.Expr) {
+					if po == nil || aliasBad[po] {
+						return
+					}
+					arg = ast.Unparen(arg)
+					if u, ok := arg.(*ast.UnaryExpr); ok && u.Op == token.AND {
+						arg = ast.Unparen(u.X)
+					}
+					var g types.Object
+					if id, ok := arg.(*ast.Ident); ok {
+						obj := p.TypesInfo.Uses[id]
+						if _, isg := t.isG(obj); isg {
+							g = obj
+							if a, ok := t.alias[obj]; ok {
+								g = a
+							}
+						}
+					}
+					if old, has := t.alias[po]; g == nil || (has && old != g) {
+						if has {
+							delete(t.alias, po)
+							aliasBad[po] = true
+						}
+						if _, isStruct := deref(po.Type()).Underlying().(*types.Struct); isStruct {
+							aliasBad[po] = true // given something else somewhere
+						}
+						return
+					}
+					t.alias[po] = g
+				}
+				if c.Recv != nil && len(c.Recv.List) == 1 && len(c.Recv.List[0].Names) == 1 {
+					if sel, ok := ast.Unparen(call.Fun).(*ast.SelectorExpr); ok {
+						bind(p.TypesInfo.Defs[c.Recv.List[0].Names[0]], sel.X)
+					}
+				}
+				var pobjs []types.Object
+				for _, fl := range c.Type.Params.List {
+					if _, variadic := fl.Type.(*ast.Ellipsis); variadic {
+						return
+					}
+					if len(fl.Names) == 0 {
+						pobjs = append(pobjs, nil)
+					}
+					for _, n := range fl.Names {
+						pobjs = append(pobjs, p.TypesInfo.Defs[n])
+					}
+				}
+				if len(pobjs) != len(call.Args) {
+					return
+				}
+				for i, po := range pobjs {
+					bind(po, call.Args[i])
+				}
+			}
 			// the function and what it calls in the package (two levels)
 			scan := []*ast.FuncDecl{fd}
 			seen := map[*ast.FuncDecl]bool{fd: true}
@@ -533,9 +594,12 @@ func publicNames(p *packages.Package, vars []types.Object, funcs map[types.Objec
 				for _, g := range scan[from:to] {
 					ast.Inspect(g.Body, func(n ast.Node) bool {
 						if call, ok := n.(*ast.CallExpr); ok {
-							if c := t.calleeOf(call); c != nil && c.Body != nil && !seen[c] {
-								seen[c] = true
-								scan = append(scan, c)
+							if c := t.calleeOf(call); c != nil && c.Body != nil {
+								bindG(call, c)
+								if !seen[c] {
+									seen[c] = true
+									scan = append(scan, c)
+								}
 							}
 						}
 						return true
@@ -543,10 +607,48 @@ func publicNames(p *packages.Package, vars []types.Object, funcs map[types.Objec
 				}
 				from = to
 			}
+			// fields of intermediate structs: named struct types of the package other than the snapshot and the metrics structs
+			isInter := func(ty types.Type) bool {
+				if ty == nil {
+					return false
+				}
+				nt, ok := deref(ty).(*types.Named)
+				if !ok || nt.Obj().Pkg() != p.Types || (snap != nil && types.Identical(nt, snap)) {
+					return false
+				}
+				if _, isStruct := nt.Underlying().(*types.Struct); !isStruct {
+					return false
+				}
+				for _, v := range vars {
+					if types.Identical(deref(v.Type()), nt) {
+						return false
+					}
+				}
+				return true
+			}
+			inter := map[types.Object]string{} // result of the previous collection pass
+			var newInter map[types.Object]string
+			var newBad map[types.Object]bool
+			setInter := func(fv types.Object, f string, ok bool) {
+				if fv == nil || newInter == nil {
+					return
+				}
+				if old, has := newInter[fv]; !ok || (has && old != f) {
+					newBad[fv] = true
+					return
+				}
+				newInter[fv] = f
+			}
 			local := map[types.Object]string{}
 			var fieldOfValue func(e ast.Expr) (string, bool)
 			fieldOfValue = func(e ast.Expr) (string, bool) {
 				e = ast.Unparen(e)
+				if sel, ok := e.(*ast.SelectorExpr); ok {
+					if sn := p.TypesInfo.Selections[sel]; sn != nil && sn.Kind() == types.FieldVal && isInter(sn.Recv()) {
+						f, ok := inter[sn.Obj()]
+						return f, ok
+					}
+				}
 				if id, ok := e.(*ast.Ident); ok {
 					f, ok := local[p.TypesInfo.Uses[id]]
 					return f, ok
@@ -569,72 +671,115 @@ func publicNames(p *packages.Package, vars []types.Object, funcs map[types.Objec
 				}
 				return "", false
 			}
-			for _, g := range scan {
-				ast.Inspect(g.Body, func(n ast.Node) bool {
-					switch x := n.(type) {
-					case *ast.ValueSpec:
-						for i, id := range x.Names {
-							if i < len(x.Values) {
-								if f, ok := fieldOfValue(x.Values[i]); ok {
-									local[p.TypesInfo.Defs[id]] = f
-								}
-							}
-						}
-					case *ast.AssignStmt:
-						if len(x.Lhs) != len(x.Rhs) {
-							return true
-						}
-						for i := range x.Lhs {
-							f, ok := fieldOfValue(x.Rhs[i])
-							if !ok {
-								continue
-							}
-							switch l := ast.Unparen(x.Lhs[i]).(type) {
-							case *ast.Ident:
-								obj := p.TypesInfo.Defs[l]
-								if obj == nil {
-									obj = p.TypesInfo.Uses[l]
-								}
-								if obj != nil {
-									local[obj] = f
-								}
-							case *ast.SelectorExpr:
-								// stats.K = v
-								if tv, ok := p.TypesInfo.Types[l.X]; ok && isSnap(tv.Type) && x.Tok == token.ASSIGN {
-									publish(f, l.Sel.Name)
-								}
-							}
-						}
-					case *ast.CompositeLit:
-						if tv, ok := p.TypesInfo.Types[x]; ok && !isSnap(tv.Type) {
-							return true
-						}
-						for _, el := range x.Elts {
-							if kv, ok := el.(*ast.KeyValueExpr); ok {
-								if k, ok := kv.Key.(*ast.Ident); ok {
-									if f, ok := fieldOfValue(kv.Value); ok {
-										publish(f, k.Name)
+			const collectPasses = 4
+			for pass := 0; pass <= collectPasses; pass++ {
+				final := pass == collectPasses
+				local = map[types.Object]string{}
+				newInter, newBad = map[types.Object]string{}, map[types.Object]bool{}
+				if final {
+					newInter, newBad = nil, nil
+				}
+				publish := func(f, k string) {
+					if final {
+						publish(f, k)
+					}
+				}
+				for _, g := range scan {
+					ast.Inspect(g.Body, func(n ast.Node) bool {
+						switch x := n.(type) {
+						case *ast.ValueSpec:
+							for i, id := range x.Names {
+								if i < len(x.Values) {
+									if f, ok := fieldOfValue(x.Values[i]); ok {
+										local[p.TypesInfo.Defs[id]] = f
 									}
 								}
 							}
-						}
-					case *ast.RangeStmt:
-						if f, ok := t.fieldOf(x.X); ok {
-							// for k, v := range g.F { snapshot.K[k] = v }
-							ast.Inspect(x.Body, func(m ast.Node) bool {
-								if as, ok := m.(*ast.AssignStmt); ok && len(as.Lhs) == 1 {
-									if ix, ok := as.Lhs[0].(*ast.IndexExpr); ok {
-										if sel, ok := ix.X.(*ast.SelectorExpr); ok {
-											res[f] = sel.Sel.Name
+						case *ast.AssignStmt:
+							if len(x.Lhs) != len(x.Rhs) {
+								return true
+							}
+							for i := range x.Lhs {
+								f, ok := fieldOfValue(x.Rhs[i])
+								if l, isSel := ast.Unparen(x.Lhs[i]).(*ast.SelectorExpr); isSel {
+									// c.k = v / c.k += v for a field of an intermediate struct
+									if sn := p.TypesInfo.Selections[l]; sn != nil && sn.Kind() == types.FieldVal && isInter(sn.Recv()) {
+										setInter(sn.Obj(), f, ok && x.Tok == token.ASSIGN)
+										continue
+									}
+								}
+								if !ok {
+									continue
+								}
+								switch l := ast.Unparen(x.Lhs[i]).(type) {
+								case *ast.Ident:
+									obj := p.TypesInfo.Defs[l]
+									if obj == nil {
+										obj = p.TypesInfo.Uses[l]
+									}
+									if obj != nil {
+										local[obj] = f
+									}
+								case *ast.SelectorExpr:
+									// stats.K = v
+									if tv, ok := p.TypesInfo.Types[l.X]; ok && isSnap(tv.Type) && x.Tok == token.ASSIGN {
+										publish(f, l.Sel.Name)
+									}
+								}
+							}
+						case *ast.CompositeLit:
+							if tv, ok := p.TypesInfo.Types[x]; ok && isInter(tv.Type) {
+								// counters{k: v, ...}: every field written here carries the metrics field v reads, or nothing
+								st := deref(tv.Type).Underlying().(*types.Struct)
+								for i, el := range x.Elts {
+									if kv, ok := el.(*ast.KeyValueExpr); ok {
+										if k, ok := kv.Key.(*ast.Ident); ok {
+											f, ok := fieldOfValue(kv.Value)
+											setInter(p.TypesInfo.Uses[k], f, ok)
 										}
+									} else if i < st.NumFields() {
+										f, ok := fieldOfValue(el)
+										setInter(st.Field(i), f, ok)
 									}
 								}
 								return true
-							})
+							}
+							if tv, ok := p.TypesInfo.Types[x]; ok && !isSnap(tv.Type) {
+								return true
+							}
+							for _, el := range x.Elts {
+								if kv, ok := el.(*ast.KeyValueExpr); ok {
+									if k, ok := kv.Key.(*ast.Ident); ok {
+										if f, ok := fieldOfValue(kv.Value); ok {
+											publish(f, k.Name)
+										}
+									}
+								}
+							}
+						case *ast.RangeStmt:
+							if f, ok := t.fieldOf(x.X); ok {
+								// for k, v := range g.F { snapshot.K[k] = v }
+								ast.Inspect(x.Body, func(m ast.Node) bool {
+									if as, ok := m.(*ast.AssignStmt); ok && len(as.Lhs) == 1 {
+										if ix, ok := as.Lhs[0].(*ast.IndexExpr); ok {
+											if sel, ok := ix.X.(*ast.SelectorExpr); ok {
+												res[f] = sel.Sel.Name
+											}
+										}
+									}
+									return true
+								})
+							}
 						}
+						return true
+					})
+				}
+				if !final {
+					for fv := range newBad {
+						delete(newInter, fv)
 					}
-					return true
-				})
+					inter = newInter
+				}
 			}
 		}
 	}
